@@ -3,10 +3,11 @@
 # property (plus any extra ones named in seeded/<id>/also), undoes it, and records the outcome.
 cd /verif
 OUT=seeded/MATRIX.txt
-: > $OUT
+[ -n "$START" ] || : > $OUT
 git -C /repo status --short | grep -q . && { echo "/repo not clean"; exit 1; }
 for d in seeded/*-*/; do
   id=$(basename $d); prop=${id%%-*}
+  [ -n "$START" ] && [[ "$id" < "$START" ]] && continue
   if ! git -C /repo apply --check $PWD/$d/patch.diff 2>/dev/null; then echo "$id: patch does not apply" >> $OUT; continue; fi
   git -C /repo apply $PWD/$d/patch.diff
   for p in $prop $(cat $d/also 2>/dev/null); do
